@@ -207,7 +207,30 @@ RULE_PROGRAMS = [
     "LABEL(5)\n", "CONSTANT(5, 5)\n", "CONSTANT(\"x\", 5)\nSET(R1, x)\n", "LP_STRING(foo)\n", "TIGER_STRING(\"s\")\n",
     "CONSTANT(big, 65535)\nSETLO(R1, big)\n", "CONSTANT(c, 64)\nINC(R1, c)\n", "CONSTANT(c, 65)\nINC(R1, c)\n",
     "LABEL(a)\nCONSTANT(a, 3)\nSET(R1, a)\n", "SET(R1, 'a')\n", "SET(R1, -'a')\n", "FOO(1)\n",
+    # something that is not a symbol "declared" twice: the type check's business, never the redeclaration rule's
+    "LABEL(5)\nLABEL(5)\n", "CONSTANT(5, 1)\nCONSTANT(5, 2)\n", "DLABEL(7)\nDLABEL(7)\n", "LABEL(R1)\nLABEL(R1)\n",
+    "LABEL(\"s\")\nLABEL(\"s\")\n", "CONSTANT(\"x\", 5)\nCONSTANT(\"x\", 6)\n", "LABEL(\"x\")\nLABEL(x)\n", "LABEL(5)\nCONSTANT(5, 5)\nDLABEL(5)\n",
 ]
+
+
+def kind_swap_texts():
+    """two operations with the same name and the same operand *numbers*, one well-formed, the other with the kinds of some
+    operands exchanged (R5 <-> 5), in both orders: the verdict on an operation must not depend on what was checked before"""
+    import hera.op as O
+    out = []
+    for name in sorted(O.name_to_class):
+        P = getattr(O.name_to_class[name], "P", ())
+        if not P or any(str(t) in ("STRING", "LABEL_TYPE") for t in P):
+            continue
+        good = ["R5" if str(t) in ("REGISTER", "REGISTER_OR_LABEL") else "5" for t in P]
+        flip = lambda a: "5" if a == "R5" else "R5"
+        variants = [[flip(a) if i == k else a for i, a in enumerate(good)] for k in range(len(good))] + [[flip(a) for a in good]]
+        g = "{}({})\n".format(name, ", ".join(good))
+        for v in variants:
+            b = "{}({})\n".format(name, ", ".join(v))
+            out += [g + b, b + g, g + g + b]
+    return out
+
 
 
 def check_signature(items):
@@ -263,7 +286,7 @@ def check_near_register_names():
 
 def rule_items():
     items = []
-    for text in RULE_PROGRAMS:
+    for text in RULE_PROGRAMS + kind_swap_texts():
         for m in ["", "debug", "assemble", "preprocess"]:
             for nd in (False, True):
                 items.append({"text": text, "mode": m, "no_debug_ops": nd})
